@@ -25,6 +25,9 @@ def run(tier, seed):
         o.name = "C09/" + o.name
     res.add(pl)
 
+    from props import errrecovery
+    res.add(errrecovery.obligations("C09"))
+
     res.assumptions.append("CLexer._handle_ppline (the #line sub-scanner) is under an ASSUMED contract (frame, progress, line-start reset); "
                            "its body is not verified in this revision")
     return res
